@@ -90,6 +90,11 @@ def pcol(model, P, name):
 
 
 def run(ctx):
+    if ctx.shard == ctx.nshards - 1:
+        # the by-name calling convention of the shipped functions this property is about (see vlib/named.py)
+        from .. import named
+        named.monitor(ctx, ['quadrotor:f', 'quadrotor:g_accel', 'quadrotor:g_gyro', 'quadrotor:g_mag', 'quadrotor:g_gps_pos'], ctx.rng("named"))
+        ctx.require("call_by_argument_name", "(by-name calls never evaluated)")
     model = get_model(ctx)
     if model is None:
         return
